@@ -35,7 +35,13 @@ BY_PROP = {
     "C04": ["num_int_int", "num_float_float", "eq_int_float", "eq_float_int", "lt_int_float", "lt_float_int",
             "mixed_shapes_small", "cross_types", "nothing", "canary_must_fail"],
     "C15": ["numbers_second_view", "num_int_int", "canary_must_fail"],
-    "C08": ["index_ijson", "index_any_i64_probe"],
+    # the comparison harnesses run the real eq / lt with Kani's overflow, cast and panic checks on: they are also
+    # absence-of-panic proofs for the numeric comparison code (cmp_numbers, cmp_i64_f64)
+    "C08": ["index_ijson", "index_any_i64_probe", "num_int_int", "num_float_float", "cross_types", "nothing"],
+}
+THOROUGH_EXTRA = {
+    "C08": ["eq_int_float", "eq_float_int", "lt_int_float", "lt_float_int"],
+    "C04": ["numbers_second_view"],
 }
 
 
@@ -135,13 +141,16 @@ def playback(run, crate: str, target: str, harness: str) -> dict:
 
 
 def run_for(run):
-    names = BY_PROP.get(run.prop, [])
+    names = list(BY_PROP.get(run.prop, []))
+    if run.tier == "thorough":
+        names += [h for h in THOROUGH_EXTRA.get(run.prop, []) if h not in names]
     if not names:
         return
     if run.tier == "quick" and run.prop == "C15":
         names = [n for n in names if n != "numbers_second_view"] + ["numbers_second_view"]
     crate = prepare_crate(run)
-    target = os.path.join(VERIF, "kani", "target")   # build cache only (gitignored); the crate copy is fresh on every run
+    # a private target directory per run: concurrent checks must not share Kani's build artefacts
+    target = os.path.join(run.scratch, "kani-target")
     cmd, out, wall = cargo_kani(crate, names, target)
     res = parse(out)
     run.checker_cmds.append(re.sub(r"\s+", " ", cmd))
